@@ -32,18 +32,19 @@ void *upper_bound(const void *key, const void *base,
 void *lower_bound(const void *key, const void *base,
               size_t nmemb, size_t size,
               int (*compar)(const void *, const void *)) {
-	char *left = (char *)base - size,
-		*right = (char *)base + size * (nmemb - 1),
+	/* the answer is in [left, right]; right == base + size * nmemb means "none" */
+	char *left = (char *)base,
+		*right = (char *)base + size * nmemb,
 		*mid;
-	while (left + size < right) {
+	while (left < right) {
 		mid = left + ((right - left) / (size << 1) * size);
 		if (compar(key, mid) <= 0) {
 			right = mid;
 		} else {
-			left = mid;
+			left = mid + size;
 		}
 	}
-	return right;
+	return left;
 }
 
 void *bsearch(const void *key, const void *base,
